@@ -39,13 +39,40 @@ from the C04 premises: SizesOK allows one record of almost 2^31 bytes and Cfg.Le
 one size word and reapRecords leaves an all-deleted, visited file non-empty — `VisitedStable` is false
 there.  Under an extra bound (file limit + largest record < 2^31) both would be invariants; that is not
 threaded through here.
+
+Q2.  `C13_gc_exactly_once`: exactly once, with GC.  The history variable is the ghost list
+`consumedAlong s0 ops` (Sth/Lemmas/C13X9.lean): after every step, the blocks that were recorded before
+the step and are not recorded after it are appended — these are exactly the entries of a hand-over file
+that a primary GC pass applied completely and then dropped.  In every reachable state of a multihash
+store:
+  * the list freelist file ++ hand-over file ++ pool (`recordedG`) has no duplicates,
+  * the consumed list has no duplicates and is disjoint from it,
+  * no recorded and no consumed block has the offset of a record a current index entry names
+    (recorded: C13G's `C13_gc_nothing_current_recorded`; consumed: here).
+Together with Q1: a record span or pooled record that is not current is recorded exactly once; after a
+cycle has applied its entry it is deleted, its block is in `consumed` exactly once, and that block is
+never recorded, consumed or current again.
+The proof (Sth/Lemmas/C13X1 … C13X9) relates every state inside a step to the state before the step
+(`Rel`: the allocator only moves forward; index entries are old ones or name blocks allocated since;
+recorded blocks were recorded before, were index entries' blocks before, or were allocated since), so
+that whatever is newly recorded was current until then — hence neither recorded (C13G) nor consumed.
+RELOCATION'S REFUSED PATH (`Index.Relocate` refuses → the copy AND the old location are freed): it would
+record an old location a second time when the writer had already recorded it.  In the model it CANNOT be
+reached by any history of `runS`: the loop over the files runs only after BOTH hand-over passes have
+completed, at which point nothing at all is recorded, and during the loop the only blocks recorded are
+the old locations of spans relocated earlier in it — so (`LInv`, `reapRecords_x`) no recorded block names
+a record span of a file still to be visited, every relocated span is covered (Q1) and therefore current,
+and `relocate_g4` shows that relocating a current span always ends with the index moved and the old
+location recorded once.  (With concurrent writers — D17/D18, not in `runS` — the refused path is the
+intended answer to a record superseded between scan and relocation.)  No `decide` run exists.
 -/
 import Sth.Lemmas.C13H10
+import Sth.Lemmas.C13X9
 import Sth.Props.C04
 
 namespace Sth
 
-open C11 C13H
+open C11 C13H C13X
 
 /-- Q1.  Completeness of the freelist along GC histories: in every reachable state of a multihash
     store every record span of every primary file and every pooled record is current (named by an index
@@ -74,5 +101,29 @@ theorem C11_primary_file_released_unconditional (c : Cfg) (hc : c.Legal) (hmh : 
 example : ∃ s, initS exCfg04b = some s ∧ CoveredAll (runS s exOps04).1 :=
   ⟨_, rfl, C13_gc_covered exCfg04b (by decide) rfl exOps04 (by unfold KeysOK; decide)
     (by unfold SizesOK; decide) _ rfl (by decide)⟩
+
+/-- Q2.  Exactly once along GC histories: nothing is recorded twice, nothing consumed by a cycle is
+    consumed twice, recorded again or current again. -/
+theorem C13_gc_exactly_once (c : Cfg) (hc : c.Legal) (hmh : c.kind = .mh) (ops : List SOp)
+    (hk : KeysOK c.kind ops) (hs : SizesOK ops) (s0 : SState) (hi : initS c = some s0)
+    (hb : GcCountersOK s0 ops) :
+    let s := (runS s0 ops).1
+    let consumed := consumedAlong s0 ops
+    (recordedG s).Nodup ∧ consumed.Nodup ∧ (∀ b ∈ consumed, b ∉ recordedG s) ∧
+    (∀ b ∈ recordedG s ++ consumed, ∀ bkt rl, idxRecords s.m s.d bkt = .ok (some rl) →
+      ∀ e ∈ rl, e.blk.off ≠ b.off) := by
+  have hX := xinv_reachable c hc hmh ops hk hs s0 hi hb
+  have hG := reach_ginv c hc hmh ops hk hs s0 hi hb
+  refine ⟨hX.nodup, hX.cnodup, hX.disj, ?_⟩
+  intro b hbm bkt rl hr e he hoff
+  rw [List.mem_append] at hbm
+  rcases hbm with h | h
+  · exact ginv_notcur hG bkt rl hr e he b h hoff.symm
+  · exact hX.cnot b h e.blk ⟨bkt, rl, e, hr, he, rfl⟩ hoff
+
+/-- non-vacuity on C04's example history: its cycles consume twelve blocks, nothing is left recorded -/
+example : ∃ s, initS exCfg04b = some s ∧
+    ((consumedAlong s exOps04).map (fun b => b.off), recordedG (runS s exOps04).1) =
+      ([13, 40, 70, 28, 0, 54, 108, 94, 80, 149, 136, 120], []) := ⟨_, rfl, by decide +kernel⟩
 
 end Sth
